@@ -12,6 +12,7 @@ import ALV.Lemmas.C16Main
 import ALV.Lemmas.C16Gen
 import ALV.Lemmas.C16Ctl
 import ALV.Lemmas.C16X
+import ALV.Lemmas.C16XNext
 import ALV.Common.Audit
 
 namespace ALV.Props.C16
@@ -273,6 +274,24 @@ theorem sample_without_exceptions [Add α] [XAdd ε α]
     outAt (Except.ok zero : Except ε α) n (evs.map SEv.lift) = .ok (outAt zero n evs) :=
   outAt_lift htot zero n evs
 
+/-- **C16.19** (the next sample after any history WITH failed operations, in closed form).  If no
+read has raised so far, one more `next` raises StopIteration iff the stream had ended or keep is off
+and every event that was REALLY added is over (`max_i(start_i + len_i) ≤ n`), and otherwise shows the
+closed-form sum of the items due — as a value, or as the exception it is (`conv`). -/
+theorem next_after_history_with_failures [XAdd ε α] (zero : α) (keep : Bool) (ops : List (XOp ε α))
+    (hal : NoRaise (srun (Except.ok zero : Except ε α) (SState.init keep) (erase ops)).2) :
+    (xrun zero (PState.init keep) (ops ++ [.next])).2 =
+      (xrun zero (PState.init keep) ops).2 ++
+        [conv (if (srun (Except.ok zero : Except ε α) (SState.init keep) (erase ops)).1.dead = true ∨
+            ((srun (Except.ok zero : Except ε α) (SState.init keep) (erase ops)).1.keep = false ∧
+              mixLength (srun (Except.ok zero : Except ε α) (SState.init keep) (erase ops)).1.evs ≤
+                (srun (Except.ok zero : Except ε α) (SState.init keep) (erase ops)).1.n)
+         then .stop
+         else outObs (Except.ok zero : Except ε α)
+                (srun (Except.ok zero : Except ε α) (SState.init keep) (erase ops)).1.evs
+                (srun (Except.ok zero : Except ε α) (SState.init keep) (erase ops)).1.n)] :=
+  x_next_after_history zero keep ops hal
+
 /-! non-vacuity: the statements are about non-trivial inputs -/
 
 -- the docstring example: [-1, 1, 4, 1, -3, -5, -7, -1], then the end
@@ -345,6 +364,15 @@ example : (xrun (ε := String) (0 : Int) (PState.init false) [.add 0 [.ok 1, .ok
 example : (xstep (ε := String) (0 : Int)
     (xrun (ε := String) (0 : Int) (PState.init false) [.add 0 [.ok (-2)]]).1 .next).2 = .raised "TypeError" := by
   decide +kernel
+-- next_after_history_with_failures: a history with a failed add in which no read raised
+example : NoRaise (srun (Except.ok (0 : Int) : Except String Int) (SState.init false)
+    (erase [.add 0 [.ok 1, .ok 1], .addFail 3 "TypeError", .next])).2 := by
+  have h : (srun (Except.ok (0 : Int) : Except String Int) (SState.init false)
+      (erase [.add 0 [.ok 1, .ok 1], .addFail 3 "TypeError", .next])).2 = [.ok, .out (.ok 1) 1] := by
+    decide +kernel
+  intro e k hm
+  rw [h] at hm
+  simp at hm
 -- the clock counts successful adds only
 example : xAcceptedTime ([.add 1 [], .addFail 3 "TypeError", .add (-1) [], .add (1/2) [.ok 1]] : List (XOp String Int))
     = 3/2 := by decide +kernel
